@@ -278,6 +278,7 @@ func (c *channel) receiveSession(ctx context.Context) (*Session, error) {
 	case SessionStateFinished:
 		return nil, fmt.Errorf("receive session: cannot do in the %v state", state)
 	case SessionStateEstablished:
+		verifHook("receiveSession.established", c.transport)
 		select {
 		case <-ctx.Done():
 			return nil, fmt.Errorf("receive session: %w", ctx.Err())
